@@ -102,6 +102,13 @@ MUTANTS = {
     "c19-decimate-odd": ("pulsarbat/utils.py", "    dec[axis] = slice(None, None, 2)", "    dec[axis] = slice(1, None, 2)", ["C19"]),
     "c19-dtype-inverted": ("pulsarbat/utils.py", "out_dtype = np.complex64 if z.dtype == np.float32 else np.complex128", "out_dtype = np.complex128 if z.dtype == np.float32 else np.complex64", ["C19"]),
     "c19-axis0-only": ("pulsarbat/utils.py", "    ind[axis] = slice(None)", "    ind[axis if z.ndim < 3 else 0] = slice(None)", ["C19"]),
+    "c20-fft2-fftn": ("pulsarbat/fft.py", "    _fft_func = getattr(scipy.fft, name)", "    _fft_func = getattr(scipy.fft, 'fftn' if name == 'fft2' else name)", ["C20"]),
+    "c20-ifft-fft": ("pulsarbat/fft.py", "    _fft_func = getattr(scipy.fft, name)", "    _fft_func = getattr(scipy.fft, 'fft' if name == 'ifft2' else name)", ["C20"]),
+    "c20-name-dropped": ("pulsarbat/fft.py", '    "hfft",\n', "", ["C20"]),
+    "c20-falign-inverted": ("pulsarbat/contrib/misc.py", 'falign = "center" if nfft % 2 else "bottom"', 'falign = "bottom" if nfft % 2 else "center"', ["C20"]),
+    "c20-scale-moved": ("pulsarbat/contrib/misc.py", "    x = x.reshape(out_shape)\n    x /= nperseg\n", "    x = x.reshape(out_shape)\n    x = x / (nperseg if nperseg != 3 else 1)\n", ["C20"]),
+    "c20-no-fftshift": ("pulsarbat/contrib/misc.py", "    x = np.fft.fftshift(x, axes=(2,))\n", "    x = np.fft.ifftshift(x, axes=(2,))\n", ["C20"]),
+    "c20-dask-eager": ("pulsarbat/fft.py", "        wrapped_func = da.fft.fft_wrap(_fft_func)\n        return wrapped_func(*args, **kwargs)", "        import numpy as _np\n        return _fft_func(_np.asarray(args[0]), *args[1:], **kwargs)", ["C20"]),
 }
 
 # behaviour-preserving edits: no check may fire
